@@ -28,58 +28,39 @@ pub fn last_panic() -> String {
     LAST_PANIC.lock().map(|g| g.clone()).unwrap_or_default()
 }
 
-static TIMEOUTS: std::sync::atomic::AtomicUsize = std::sync::atomic::AtomicUsize::new(0);
 pub const WATCHDOG_SECS: u64 = 20;
 
-/// Too many calls did not return: the drivers stop producing further cases (each abandoned call keeps a core busy).
+/// (kept for the drivers' loops: the monitor below ends the process at the first call that does not return)
 pub fn too_many_timeouts() -> bool {
-    TIMEOUTS.load(std::sync::atomic::Ordering::SeqCst) >= 3
-}
-
-/// Runs `f` on a thread of its own (large stack: deeply nested inputs) and waits up to WATCHDOG_SECS for it.
-/// None = it did not return in time (the thread is abandoned).  Non-termination is behaviour to report, not a tool error.
-pub fn watchdog<T: Send + 'static>(f: impl FnOnce() -> T + Send + 'static) -> Option<T> {
-    let (tx, rx) = std::sync::mpsc::channel();
-    let h = std::thread::Builder::new().stack_size(256 << 20).spawn(move || {
-        let _ = tx.send(f());
-    });
-    if h.is_err() {
-        return None;
-    }
-    match rx.recv_timeout(std::time::Duration::from_secs(WATCHDOG_SECS)) {
-        Ok(v) => Some(v),
-        Err(_) => {
-            TIMEOUTS.fetch_add(1, std::sync::atomic::Ordering::SeqCst);
-            None
-        }
-    }
+    false
 }
 
 static LAST_SRC: Mutex<String> = Mutex::new(String::new());
-static ARMED: Mutex<Option<(std::time::Instant, String)>> = Mutex::new(None);
+static ARMED: Mutex<Option<(std::time::Instant, u64, &'static str, String)>> = Mutex::new(None);
 pub const EXEC_SECS: u64 = 60;
 
-/// Starts the execution monitor: if a guarded execution does not return within EXEC_SECS the process reports the
-/// source on stderr and exits with status 3 (the caller turns that into a violation: non-termination is behaviour).
+/// Starts the monitor: if a guarded call into cel-rust (compile: WATCHDOG_SECS, execute: EXEC_SECS) does not return,
+/// the process reports the source on stderr and exits with status 3; the caller turns that into a violation
+/// (non-termination is behaviour to report, not a tool error).  No per-call thread: arming is one mutex write.
 pub fn start_exec_monitor() {
     std::thread::spawn(|| loop {
         std::thread::sleep(std::time::Duration::from_millis(250));
         let hit = match ARMED.lock() {
-            Ok(g) => g.as_ref().and_then(|(t0, src)| if t0.elapsed().as_secs() >= EXEC_SECS { Some(src.clone()) } else { None }),
+            Ok(g) => g.as_ref().and_then(|(t0, limit, phase, src)| if t0.elapsed().as_secs() >= *limit { Some((*phase, *limit, src.clone())) } else { None }),
             Err(_) => None,
         };
-        if let Some(src) = hit {
-            eprintln!("EXEC-TIMEOUT {}", serde_json::json!({"src": src, "secs": EXEC_SECS}));
+        if let Some((phase, limit, src)) = hit {
+            eprintln!("EXEC-TIMEOUT {}", serde_json::json!({"src": src, "secs": limit, "phase": phase}));
             std::process::exit(3);
         }
     });
 }
-fn arm(src: &str) {
+pub fn arm(phase: &'static str, limit: u64, src: &str) {
     if let Ok(mut g) = ARMED.lock() {
-        *g = Some((std::time::Instant::now(), src.to_string()));
+        *g = Some((std::time::Instant::now(), limit, phase, src.to_string()));
     }
 }
-fn disarm() {
+pub fn disarm() {
     if let Ok(mut g) = ARMED.lock() {
         *g = None;
     }
@@ -96,29 +77,26 @@ pub fn compile(src: &str) -> Compiled {
     if let Ok(mut g) = LAST_SRC.lock() {
         *g = src.to_string();
     }
-    let owned = src.to_string();
-    // everything that is not Send (the parser's error values) is turned into JSON on the worker thread
-    let r = watchdog(move || {
-        catch_unwind(AssertUnwindSafe(|| {
-            let ast = cel_parser::Parser::new().parse(&owned);
-            let prog = Program::compile(&owned);
-            match (ast, prog) {
-                (Ok(ast), Ok(prog)) => Ok((prog, enc::ast(&ast))),
-                (ast, prog) => {
-                    let errs = match prog {
-                        Err(e) => e.errors.iter().map(|pe| json!({"line": pe.pos.0, "col": pe.pos.1, "msg": pe.msg, "text": format!("{}", pe)})).collect::<Vec<_>>(),
-                        Ok(_) => vec![],
-                    };
-                    Err(json!({"k": "compile_err", "errors": errs, "parser_ok": ast.is_ok()}))
-                }
+    arm("compile", WATCHDOG_SECS, src);
+    let r = catch_unwind(AssertUnwindSafe(|| {
+        let ast = cel_parser::Parser::new().parse(src);
+        let prog = Program::compile(src);
+        match (ast, prog) {
+            (Ok(ast), Ok(prog)) => Ok((prog, enc::ast(&ast))),
+            (ast, prog) => {
+                let errs = match prog {
+                    Err(e) => e.errors.iter().map(|pe| json!({"line": pe.pos.0, "col": pe.pos.1, "msg": pe.msg, "text": format!("{}", pe)})).collect::<Vec<_>>(),
+                    Ok(_) => vec![],
+                };
+                Err(json!({"k": "compile_err", "errors": errs, "parser_ok": ast.is_ok()}))
             }
-        }))
-    });
+        }
+    }));
+    disarm();
     match r {
-        None => Compiled::Panic(format!("compile did not return within {} s", WATCHDOG_SECS)),
-        Some(Err(_)) => Compiled::Panic(last_panic()),
-        Some(Ok(Ok((prog, ast)))) => Compiled::Ok(prog, ast),
-        Some(Ok(Err(e))) => Compiled::Err(e),
+        Err(_) => Compiled::Panic(last_panic()),
+        Ok(Ok((prog, ast))) => Compiled::Ok(prog, ast),
+        Ok(Err(e)) => Compiled::Err(e),
     }
 }
 
@@ -139,7 +117,7 @@ pub fn execute(prog: &Program, vars: &[(String, Value)], with_zoo: bool) -> (J, 
 /// defaults and the zoo (so they replace a built-in or zoo function of that name).
 pub fn execute_with(prog: &Program, vars: &[(String, Value)], with_zoo: bool, overrides: &[String]) -> (J, Vec<J>) {
     let log = zoo::new_log();
-    arm(&LAST_SRC.lock().map(|g| g.clone()).unwrap_or_default());
+    arm("execute", EXEC_SECS, &LAST_SRC.lock().map(|g| g.clone()).unwrap_or_default());
     let r = catch_unwind(AssertUnwindSafe(|| {
         let mut ctx = Context::default();
         if with_zoo {
